@@ -251,4 +251,20 @@ func init() {
 		Assumptions: []string{"reduced scope: Clip returns exactly the chains the clipper produces (closing vertex appended and stripped again), having sent every member line and every ring; where the pieces lie is the dependency's sweep"},
 		Outside:     []string{"position and total length of the clipped pieces for lines that enter the polygon's bounding box (polyclip's CLIPLINE sweep)"},
 	})
+	reg(&Property{
+		ID: "C18", Pkgs: []string{"encoding/osm"}, Level: "model_checking",
+		Opts: []HarnessOpt{
+			{Prefix: "VH_C18_", Workers: 2, MaxUnwind: 40, MaxSteps: 5_000_000, Preempt: [2]int{2, 3}},
+			{Prefix: "VH_C18_extract_bounds", Workers: 2, MaxUnwind: 40, MaxSteps: 5_000_000, Preempt: [2]int{1, 2}, Merge: []string{"(*" + ModPath + ".Bounds).Overlaps"}},
+			{Prefix: "VH_C18_filter", Workers: 2, MapOrders: true, MaxUnwind: 40},
+		},
+		Rule: "one evaluation = one explored path = one document template with one tag assignment and ONE COMPLETE SCHEDULE of the main goroutine and the two workers (every choice of the next runnable goroutine at every lock acquisition, channel operation, goroutine start/exit and Wait); non-trivial = path runs to the end with all assertions discharged",
+		Bounds: map[string]string{
+			"workers":   "GOMAXPROCS modelled as 2 (two workers plus the feeding goroutine)",
+			"documents": "six templates of 2-3 objects (node/way order both ways, shared node, relation of a way, relations referring to each other), tags case-split, node positions free doubles against a free box",
+			"schedules": "all interleavings with at most 2 (quick) / 3 (thorough) preemptive context switches (switches when the running goroutine blocks or ends are free), switch points at synchronisation operations only (critical sections are atomic: every shared map access in extract.go is under its mutex)",
+		},
+		Assumptions: []string{"sync.Mutex/RWMutex, channels, errgroup.Go/Wait and GOMAXPROCS are modelled by the scheduler (3.3); a scanner and a ReadSeeker written in the harness stand for the XML/PBF readers"},
+		Outside:     []string{"XML/PBF parsing", "larger documents, more than two workers", "data races (accesses outside any lock) are not searched for"},
+	})
 }
